@@ -47,7 +47,7 @@ manifest = {
     }],
     "checks": checks,
     "not_applicable": [{"property_id": k, "reason": v} for k, v in sorted(NOT_APPLICABLE.items()) if k not in META],
-    "notes": "All checks are seeded searches over schedules and fault sequences (level: exploration). Known findings: /verif/known_findings.json. Replay files: /verif/replays. See DESIGN.md. hooks.add_only is false for one line: rpc.Client.callLock changed type from sync.Mutex to simhook.Mutex, which is an alias of sync.Mutex without the verif tag; every other hook line is an addition.",
+    "notes": "All checks are seeded searches over schedules and fault sequences (level: exploration). Known findings: /verif/known_findings.json. Replay files: /verif/replays. See DESIGN.md. hooks.add_only is false for three field declarations whose type changed: rpc.Client.callLock and rpc.Server.lockExport from sync.Mutex to simhook.Mutex, machine.Machine.activeStatesMx from sync.RWMutex to simhook.RWMutex; both simhook types are aliases of the sync types without the verif tag. Every other hook line is an addition.",
 }
 json.dump(manifest, open("MANIFEST.json", "w"), indent=1)
 print("claimed:", [c["property_id"] for c in checks])
